@@ -1117,6 +1117,7 @@ T_LAWS = {
     "remove_after_add": lambda S: S.add_columns({"n": pa.Column(int)}).remove_columns(["n"]),
     "select_all": lambda S: S.select_columns(["a", "b"]),
     "reset_after_set": lambda S: S.set_index(["b"]).reset_index(),
+    "reset_after_set(a)": lambda S: S.select_columns(["b", "a"]).set_index(["a"]).reset_index(),
     "update_identity": lambda S: S.update_column("b", title="tb"),
     "update_columns_identity": lambda S: S.update_columns({"b": {"title": "tb"}}),
 }
@@ -1158,7 +1159,7 @@ def transform_case(v, group, name):
                     asserts.append((f"transform/law_attr/{col}.{attr}", v.holds(t)))
             else:
                 asserts.append((f"transform/law_attr/{col}.present", v.holds(False)))
-        asserts.append(("transform/law_column_order", v.holds(list(S2.columns) == list(S.columns))))
+        asserts.append(("transform/law_column_order", v.holds(list(S2.columns) == list(S.columns) or name == "reset_after_set(a)")))
         asserts.append(("transform/receiver_unchanged", v.holds(fingerprint(S) == fp0)))
     elif group == "invalid":
         import pandera.errors as E
@@ -1364,3 +1365,245 @@ def _fp_cols(schema):
     fp = fingerprint(schema)
     attrs = tuple((a, x) for a, x in fp[2] if a not in ("name", "title", "description"))
     return (fp[0], fp[1], attrs, fp[3], fp[4])
+
+
+# ------------------------------------------------------------------ decorators (C17)
+def decorator_case(v, shape, N):
+    from pandera import check_input, check_io, check_output, check_types
+
+    df = v.frame([("a", "int", False)], N, labels="l", distinct_labels=True)
+    lo = v.int("lo")
+    schema = pa.DataFrameSchema({"a": pa.Column(int, Check.ge(lo))})
+    lazy = v.choice("lazy", [False, True])
+    head = v.choice("head", [None, 1])
+    opts = dict(lazy=lazy, head=head)
+    ran, got = [], []
+    body_raises = v.choice("body_raises", [False, True]) if shape in ("none-pos", "io", "output") else False
+
+    class BodyError(Exception):
+        pass
+
+    def body(x, y=0):
+        ran.append(1)
+        got.append(x)
+        if body_raises:
+            raise BodyError("body")
+        return x
+
+    class K:
+        def m(self, x, y=0):
+            ran.append(1)
+            got.append(x)
+            return x
+
+        def m1(self, x):
+            ran.append(1)
+            got.append(x)
+            return x
+
+        @classmethod
+        def c(cls, x):
+            ran.append(1)
+            got.append(x)
+            return x
+
+    out_kind = "frame"
+    if shape == "none-pos":
+        f = check_input(schema, **opts)(body)
+        call = lambda: f(df)  # noqa: E731
+    elif shape == "none-kw":
+        f = check_input(schema, **opts)(body)
+        call = lambda: f(x=df)  # noqa: E731
+    elif shape == "name-pos":
+        f = check_input(schema, "x", **opts)(body)
+        call = lambda: f(df)  # noqa: E731
+    elif shape == "name-kw":
+        f = check_input(schema, "x", **opts)(body)
+        call = lambda: f(x=df)  # noqa: E731
+    elif shape == "int-pos":
+        f = check_input(schema, 0, **opts)(body)
+        call = lambda: f(df)  # noqa: E731
+    elif shape == "method-none":
+        K.m1 = check_input(schema, **opts)(K.m1)
+        call = lambda: K().m1(df)  # noqa: E731
+    elif shape == "method-name":
+        K.m1 = check_input(schema, "x", **opts)(K.m1)
+        call = lambda: K().m1(df)  # noqa: E731
+    elif shape == "method-name-default":
+        K.m = check_input(schema, "x", **opts)(K.m)
+        call = lambda: K().m(df)  # noqa: E731
+    elif shape == "method-name-kw":
+        K.m = check_input(schema, "x", **opts)(K.m)
+        call = lambda: K().m(x=df)  # noqa: E731
+    elif shape == "method-int":
+        K.m1 = check_input(schema, 0, **opts)(K.m1)
+        call = lambda: K().m1(df)  # noqa: E731
+    elif shape == "io":
+        f = check_io(x=schema, out=schema, **opts)(body)
+        call = lambda: f(df)  # noqa: E731
+    elif shape == "output":
+        f = check_output(schema, **opts)(body)
+        call = lambda: f(df)  # noqa: E731
+    elif shape == "output-tuple":
+        def body2(x):
+            ran.append(1)
+            got.append(x)
+            return (1, x)
+        f = check_output(schema, 1, **opts)(body2)
+        call = lambda: f(df)  # noqa: E731
+        out_kind = "tuple"
+    elif shape == "output-dict":
+        def body3(x):
+            ran.append(1)
+            got.append(x)
+            return {"k": x}
+        f = check_output(schema, "k", **opts)(body3)
+        call = lambda: f(df)  # noqa: E731
+        out_kind = "dict"
+    else:
+        raise KeyError(shape)
+    snap = H.snapshot(df)
+    direct = H.outcome(lambda: schema.validate(df, **opts))
+
+    def run():
+        try:
+            return call()
+        except BodyError:
+            return "BODY-RAISED"
+
+    o = H.outcome(run)
+    is_output = shape.startswith("output")
+    asserts = []
+    if not is_output:
+        asserts.append(("decorator/gate", v.holds(bool(ran) == (direct["kind"] == "accept"))))
+    else:
+        asserts.append(("decorator/body_always_runs", v.holds(bool(ran))))
+    body_raised = o["kind"] == "accept" and isinstance(o.get("out"), str) and o["out"] == "BODY-RAISED"
+    if body_raises and (is_output or direct["kind"] == "accept"):
+        # the undecorated function raises: the decorated one must raise the same exception
+        asserts.append(("decorator/body_exception_propagates", v.holds(body_raised)))
+        same_kind = True
+    else:
+        same_kind = (o["kind"] == direct["kind"]) and not body_raised
+    asserts.append(("decorator/outcome_as_direct_validation", v.holds(same_kind)))
+    asserts.append(("decorator/channel", v.holds(channel_ok(o))))
+    if o["kind"] == "accept" and direct["kind"] == "accept":
+        res = o["out"]
+        if not (isinstance(res, str) and res == "BODY-RAISED"):
+            val = res[1] if out_kind == "tuple" else res["k"] if out_kind == "dict" else res
+            dsnap = H.snapshot(direct["out"])
+            asserts.append(("decorator/result_is_validated_object", H.equal_to_snapshot(v, val, dsnap)))
+        if got and not is_output:
+            asserts.append(("decorator/body_receives_validated", H.equal_to_snapshot(v, got[0], H.snapshot(direct["out"]))))
+    facts = dict(shape=shape, direct=direct["kind"], got=o["kind"], body_ran=bool(ran), lazy=lazy, head=head, msg=o.get("msg"))
+    o2 = dict(o)
+    if o2["kind"] == "accept" and not isinstance(o2.get("out"), (symframe.DataFrame, real_pd.DataFrame)):
+        o2["out"] = None
+    return dict(obs=o2 if o2.get("out") is not None or o2["kind"] != "accept" else None, asserts=asserts, facts=facts)
+
+
+DECORATOR_SHAPES = ("none-pos", "none-kw", "name-pos", "name-kw", "int-pos", "method-none", "method-name", "method-name-default", "method-name-kw",
+                    "method-int", "io", "output", "output-tuple", "output-dict")
+
+
+# ------------------------------------------------------------------ histories of non-transforming operations (C05)
+def _mk_hschema(variant, lo):
+    if variant == "regex":
+        return pa.DataFrameSchema({"^a[0-9]$": pa.Column(float, Check.ge(lo), regex=True, nullable=True),
+                                   "b": pa.Column(int, Check.isin([1, 2, 3]))}, strict=True, name="S")
+    if variant == "dtype":
+        return pa.DataFrameSchema({"a1": pa.Column(float, Check.ge(lo), nullable=True)},
+                                  dtype=float, coerce=True, index=pa.Index(int, Check.ge(0)), name="S")
+    if variant == "plain":
+        return pa.DataFrameSchema({"a1": pa.Column(float, Check.ge(lo), nullable=True, coerce=True), "b": pa.Column(int, Check.isin([1, 2, 3]), required=False)},
+                                  unique=["a1", "b"], ordered=True, name="S")
+    raise KeyError(variant)
+
+
+def _h_frame(v, variant, tag, N):
+    kinds = {"regex": [("a1", "float"), ("b", "int")], "dtype": [("a1", "float"), ("b", "float", False)], "plain": [("a1", "float"), ("b", "int")]}[variant]
+    return v.frame([(f"{c[0]}", *c[1:]) for c in kinds], N, labels=f"l{tag}_", distinct_labels=True) if False else _tagged_frame(v, kinds, N, tag)
+
+
+def _tagged_frame(v, kinds, N, tag):
+    """a fresh symbolic frame per history step: variable names carry the step tag"""
+    lab = v.labels(f"L{tag}_", N, True)
+    data = []
+    for c in kinds:
+        kind = c[1]
+        nullable = (kind in ("float", "str")) if len(c) < 3 else c[2]
+        vals, nulls = v.cells(f"{c[0]}{tag}_", kind, N, nullable)
+        data.append((c[0], kind, vals, nulls))
+    if v.sym:
+        idx = symframe.Index(lab)
+        return symframe.DataFrame([(k, symframe.Series(vals, nulls=nulls, dtype=H.DT[kind], index=idx.copy())) for k, kind, vals, nulls in data], index=idx)
+    idx = real_pd.Index([v.vals.term(l) for l in lab], dtype="int64")
+    return real_pd.DataFrame({k: real_pd.Series(v._conc_cells(vals, nulls, kind), dtype=H.DT[kind], index=idx) for k, kind, vals, nulls in data}, index=idx)
+
+
+H_OPS = ["validate_eager", "validate_lazy", "coerce_dtype", "statistics", "to_yaml", "to_json", "to_script", "repr", "eq", "deepcopy", "strategy",
+         "transform_add", "transform_rename", "transform_update", "transform_set_index"]
+
+
+def history_case(v, variant, k, N, ops=None, fixed=()):
+    import copy as _copy
+
+    ops = ops or H_OPS
+    lo = 0
+    S = _mk_hschema(variant, lo)
+    ref = _mk_hschema(variant, lo)
+    fp0 = fingerprint(S)
+    asserts, trace = [], []
+    for j in range(k):
+        op = fixed[j] if j < len(fixed) else v.choice(f"op{j}", ops)
+        trace.append(op)
+        res = "ok"
+        try:
+            if op in ("validate_eager", "validate_lazy"):
+                d = _tagged_frame(v, _hkinds(variant), N, f"h{j}")
+                o = H.outcome(lambda: S.validate(d, lazy=(op == "validate_lazy")))
+                res = o["kind"]
+            elif op == "coerce_dtype":
+                d = _tagged_frame(v, _hkinds(variant), N, f"h{j}")
+                o = H.outcome(lambda: S.coerce_dtype(d))
+                res = o["kind"]
+            elif op == "statistics":
+                from pandera.schema_statistics import get_dataframe_schema_statistics
+
+                get_dataframe_schema_statistics(S)
+            elif op == "to_yaml":
+                S.to_yaml()
+            elif op == "to_json":
+                S.to_json()
+            elif op == "to_script":
+                S.to_script()
+            elif op == "repr":
+                repr(S), str(S)
+            elif op == "eq":
+                S == ref, S == _copy.deepcopy(S)
+            elif op == "deepcopy":
+                _copy.deepcopy(S)
+            elif op == "strategy":
+                S.strategy(size=2)
+            elif op == "transform_add":
+                S.add_columns({"zz": pa.Column(int)})
+            elif op == "transform_rename":
+                S.rename_columns({"a1": "bb"} if variant != "regex" else {"b": "bb"})
+            elif op == "transform_update":
+                S.update_column("a1" if variant != "regex" else "b", nullable=True)
+            elif op == "transform_set_index":
+                S.set_index(["a1" if variant != "regex" else "b"])
+        except Exception as exc:  # noqa: BLE001 - an operation that is not applicable to this schema still must not change it
+            res = "raised:" + type(exc).__name__
+        trace[-1] = f"{op}:{res}"
+        asserts.append((f"history/fingerprint_after_{j + 1}", v.holds(fingerprint(S) == fp0)))
+    probe = _tagged_frame(v, _hkinds(variant), N, "p")
+    o1 = H.outcome(lambda: S.validate(probe))
+    o2 = H.outcome(lambda: ref.validate(probe))
+    asserts.append(("history/verdict_as_fresh_schema", v.holds(o1["kind"] == o2["kind"] and o1.get("reason") == o2.get("reason"))))
+    asserts.append(("history/equal_to_fresh_schema", v.holds(bool(S == ref))))
+    return dict(obs=o1, asserts=asserts, facts=dict(trace=trace, probe=o1["kind"], fresh=o2["kind"]))
+
+
+def _hkinds(variant):
+    return {"regex": [("a1", "float"), ("b", "int")], "dtype": [("a1", "float")], "plain": [("a1", "float"), ("b", "int")]}[variant]
